@@ -66,7 +66,11 @@ func genC01(t *core.Tape, tier string) *Scenario {
 			// the client did not send may reach the handler
 			sc.Clients[0].FailCodec = true
 			i := t.Choose(len(p.ReqMsgs), "unsendable.which")
-			p.ReqMsgs[i] = append(append([]byte(nil), marshalFailMarker...), p.ReqMsgs[i]...)
+			marker := marshalFailMarker
+			if t.Bool(1, 3, "unsendable.eof") {
+				marker = marshalFailEOFMarker // the codec's complaint wraps io.EOF
+			}
+			p.ReqMsgs[i] = append(append([]byte(nil), marker...), p.ReqMsgs[i]...)
 			p.unsendable = i + 1
 			sc.Notes["unsendable_request_message"]++
 		}
